@@ -218,6 +218,20 @@ def run(chk):
         chk.cov['traces_validated_against_impl'] += tot
         chk.part('zones', series=tot)
         os.remove(res.dump_path)
+    # extension: plotting positions used by the pearl-chain / probit estimators (exact rationals)
+    rres = tlc.run(os.path.join(SPEC, 'woehleranalysis', 'MC_Rossow.tla'), os.path.join(SPEC, 'woehleranalysis', 'MC_Rossow.cfg'), dump=True, timeout=600)
+    chk.tlc('MC_Rossow.cfg', rres, 'extension: Rossow plotting positions increasing, symmetric, median 1/2')
+    if rres.dump_path and os.path.exists(rres.dump_path):
+        from fractions import Fraction
+        from ..tlaparse import parse_dump
+        from pylife.utils.functions import rossow_cumfreqs
+        for st in parse_dump(rres.dump_path):
+            got = rossow_cumfreqs(st['N'])
+            want = [float(Fraction(*q)) for q in st['out']]
+            chk.evals(1)
+            if len(got) != len(want) or not np.allclose(got, want, rtol=1e-15, atol=0):
+                chk.drift.append('rossow_cumfreqs(%d) differs from (3i-1)/(3N+1)' % st['N'])
+        os.remove(rres.dump_path)
     # estimators
     res = tlc.run(A_TLA, os.path.join(SPEC, 'woehleranalysis', 'MC_AnalysisEquiv.cfg'), dump=True, timeout=600)
     chk.tlc('MC_AnalysisEquiv.cfg', res, 'walks of ScaleLoads / ScaleCycles / Permute / Distract over the data-set catalogue')
